@@ -450,6 +450,7 @@ type Contract struct {
 	ModAny   bool     // "modifies *": no frame
 	Loops    map[int]*LoopSpec
 	Inline   bool
+	NoFrame  bool // the frame (modifies) of this function is assumed, not checked (listed as an assumption)
 	Trusted  bool
 	Pure     bool // no heap effects at all; result is a function of arguments and read heap
 	Bounded  int
@@ -508,13 +509,14 @@ type GlobalInv struct {
 
 // SpecFile is everything parsed from the contract files of one package.
 type SpecSet struct {
-	Contracts map[string]*Contract // key: pkgpath + "::" + Key
-	Preds     map[string]*PredDef  // key: name (global namespace; pkg-qualified lookups fall back to bare)
-	Ghosts    map[string]*GhostFn
-	Axioms    []GlobalInv
-	Globals   []GlobalInv
-	Ifaces    map[string]*IfaceContract
-	Lemmas    []*Lemma
+	Contracts  map[string]*Contract // key: pkgpath + "::" + Key
+	Preds      map[string]*PredDef  // key: name (global namespace; pkg-qualified lookups fall back to bare)
+	Ghosts     map[string]*GhostFn
+	Axioms     []GlobalInv
+	Globals    []GlobalInv
+	EnvAssumes []GlobalInv
+	Ifaces     map[string]*IfaceContract
+	Lemmas     []*Lemma
 }
 
 type Lemma struct {
@@ -534,7 +536,7 @@ var clauseKeywords = map[string]bool{
 	"pred": true, "ghost": true, "axiom": true, "func": true, "requires": true, "ensures": true,
 	"modifies": true, "loop": true, "invariant": true, "inline": true, "trusted": true, "bounded": true,
 	"interface": true, "global": true, "assume": true, "lemma": true, "panics": true, "pure": true,
-	"method": true, "end": true, "results": true, "unroll": true,
+	"method": true, "end": true, "results": true, "unroll": true, "envassume": true, "noframe": true,
 }
 
 // ParseContractText parses the //@ lines of a contract file.
@@ -632,6 +634,14 @@ func (ss *SpecSet) ParseContractText(pkgPath, file, text string) error {
 			}
 			ss.Globals = append(ss.Globals, GlobalInv{pkgPath, cl})
 			cur, curLoop = nil, nil
+		case "envassume":
+			// assumption about start-up configuration (registries, generator functions): assumed, never checked, always listed
+			cl, err := mk(rest, c.n)
+			if err != nil {
+				return err
+			}
+			ss.EnvAssumes = append(ss.EnvAssumes, GlobalInv{pkgPath, cl})
+			cur, curLoop = nil, nil
 		case "interface":
 			curIface = &IfaceContract{Name: rest, Methods: map[string]*Contract{}}
 			ss.Ifaces[qualify(pkgPath, rest)] = curIface
@@ -727,6 +737,8 @@ func (ss *SpecSet) ParseContractText(pkgPath, file, text string) error {
 			fmt.Sscanf(rest, "%d", &curLoop.Unroll)
 		case "inline":
 			cur.Inline = true
+		case "noframe":
+			cur.NoFrame = true
 		case "trusted":
 			cur.Trusted = true
 		case "pure":
